@@ -310,6 +310,16 @@ def run(ctx, col: Collector):
                 raise AnchorMissing(fname)
             act = _action(nodes[0], fname)
             reads = action_reads(act)
+            # small value helpers (`comment_before_text(tok)`) are read in place
+            afi = idx.funcs.get(f'{act.module}:{act.name}')
+            if afi is not None:
+                from ..inline import inline_fragments
+                afi2 = inline_fragments(idx, afi)
+                if afi2 is not afi:
+                    import copy as _copy
+                    act = _copy.copy(act)
+                    act.node = afi2.node
+                    reads = action_reads(act)
             has_settings_comment = any(TRAILING in names_inner(s) for g in nodes for s in named_nodes(g, 'settings'))
             scens = [('trailing+leading', {TRAILING: True, LEADING: True, 'settings': False, 'settings_comment': False}, 'trailing'),
                      ('leading-only', {TRAILING: False, LEADING: True, 'settings': False, 'settings_comment': False}, 'leading'),
@@ -336,7 +346,10 @@ def run(ctx, col: Collector):
                         bad = (srcs, path)
                         break
                 cons = f'{fname}:{sname}'
-                if bad is None:
+                if bad is not None and 'other' in bad[0]:
+                    col.unk('C14-priority', cons, f'{fname}: with {sname.replace("+", " and ")} present there is a path on which the comment stored comes from a value this '
+                            f'rule cannot trace to the leading or the trailing capture', node=act.node, file=act.module.replace('.', '/') + '.py')
+                elif bad is None:
                     col.ok('C14-priority', cons, f'{fname}: on all {len(finals)} feasible paths the stored comment is the {want} one',
                            node=act.node, file=act.module.replace('.', '/') + '.py')
                 else:
